@@ -110,15 +110,15 @@ theorem gemVersion_of_run (v : List Char) (h : run .d0 v = true) :
 
 /-! ### `~>` (C18) -/
 
-/-- on a well-formed version `get_tilde_constraints` never fails: lower bound = the release,
-upper bound = the bump of the release -/
+/-- on a well-formed version `get_tilde_constraints` never fails: lower bound = the version
+itself, upper bound = the bump of the release -/
 theorem tildeOfVersion_ok (v : Raw) (hv : WellFormed v) :
-    ∃ lo hi, tildeOfVersion v = .ok [⟨.ge, lo⟩, ⟨.lt, hi⟩] ∧ release v = .ok lo ∧ bump lo = .ok hi
-      ∧ WellFormed lo ∧ WellFormed hi := by
-  obtain ⟨lo, hlo⟩ := release_ok v
-  have wlo := release_wf v lo hv hlo
-  obtain ⟨hi, hhi⟩ := bump_ok lo wlo
-  exact ⟨lo, hi, by simp [tildeOfVersion, hlo, hhi, liftV], hlo, hhi, wlo, bump_wf lo hi hhi⟩
+    ∃ rel hi, tildeOfVersion v = .ok [⟨.ge, v⟩, ⟨.lt, hi⟩] ∧ release v = .ok rel ∧ bump rel = .ok hi
+      ∧ WellFormed rel ∧ WellFormed hi := by
+  obtain ⟨rel, hrel⟩ := release_ok v
+  have wrel := release_wf v rel hv hrel
+  obtain ⟨hi, hhi⟩ := bump_ok rel wrel
+  exact ⟨rel, hi, by simp [tildeOfVersion, hrel, hhi, liftV], hrel, hhi, wrel, bump_wf rel hi hhi⟩
 
 theorem isPrerelease_relVer (ns : List Nat) : isPrerelease (relVer ns) = false := by
   simp only [isPrerelease, relVer, relText, segs_join]
@@ -187,40 +187,28 @@ theorem gem_tilde_exact1 (a : Nat) :
     tildeOfVersion (relVer [a]) = .ok [⟨.ge, relVer [a]⟩, ⟨.lt, relVer [a + 1]⟩] :=
   gem_tilde_exact [a] (by simp)
 
-/-- **`gem_tilde_bounds`** (C18): for a well-formed RELEASE version `v`, `~> v` is
-`[>= lo, < hi]` with `lo = v`, `lo < hi`, and `v` satisfies both bounds -/
-theorem gem_tilde_bounds (v : Raw) (hv : WellFormed v) (hr : isPrerelease v = false) :
+/-- **`gem_tilde_bounds`** (C18): for EVERY well-formed version `v` (prereleases included),
+`~> v` is `[>= v, < hi]` with `v < hi` (the range is never empty) and `v` satisfies both bounds -/
+theorem gem_tilde_bounds (v : Raw) (hv : WellFormed v) :
     ∃ hi, tildeOfVersion v = .ok [⟨.ge, v⟩, ⟨.lt, hi⟩] ∧ vercmp v hi = .lt
       ∧ Cmpr.holds .ge (vercmp v v) = true ∧ Cmpr.holds .lt (vercmp v hi) = true := by
-  obtain ⟨lo, hi, ht, hlo, hhi, _, _⟩ := tildeOfVersion_ok v hv
-  have : lo = v := by
-    rw [release_eq, hr] at hlo
-    injection hlo with hlo; exact hlo.symm
-  subst this
-  have hlt := vercmp_bump lo hi hhi
-  have hrefl : vercmp lo lo = .eq := ReflCmp.compare_self
+  obtain ⟨rel, hi, ht, hrel, hhi, _, _⟩ := tildeOfVersion_ok v hv
+  have h1 := vercmp_bump rel hi hhi
+  have h2 := vercmp_release v rel hrel
+  have hlt : vercmp v hi = .lt := by
+    cases h3 : vercmp v rel with
+    | lt => exact TransCmp.lt_trans h3 h1
+    | eq => exact TransCmp.lt_of_eq_of_lt h3 h1
+    | gt => exact absurd h3 h2
+  have hrefl : vercmp v v = .eq := ReflCmp.compare_self
   exact ⟨hi, ht, hlt, by simp [Cmpr.holds, hrefl], by simp [Cmpr.holds, hlt]⟩
 
-/-- for ANY well-formed version the two bounds are ordered: the range is never empty -/
-theorem gem_tilde_lower_lt_upper (v : Raw) (hv : WellFormed v) :
-    ∃ lo hi, tildeOfVersion v = .ok [⟨.ge, lo⟩, ⟨.lt, hi⟩] ∧ vercmp lo hi = .lt
-      ∧ vercmp v lo ≠ .gt ∧ vercmp v hi = .lt := by
-  obtain ⟨lo, hi, ht, hlo, hhi, _, _⟩ := tildeOfVersion_ok v hv
-  have h1 := vercmp_bump lo hi hhi
-  have h2 := vercmp_release v lo hlo
-  refine ⟨lo, hi, ht, h1, h2, ?_⟩
-  cases h3 : vercmp v lo with
-  | lt => exact TransCmp.lt_trans h3 h1
-  | eq => exact TransCmp.lt_of_eq_of_lt h3 h1
-  | gt => exact absurd h3 h2
-
-/-- **defect** (C18): for the prerelease `~> 1.0.a` the lower bound is the RELEASE `1.0`, which
-the starting version `1.0.a` does not satisfy — although `GemRequirement("~> 1.0.a")
-.satisfied_by("1.0.a")` (and RubyGems) accept it -/
-theorem gem_tilde_prerelease_counterexample :
-    tildeOfVersion ⟨"1.0.a".toList⟩ = .ok [⟨.ge, ⟨"1.0".toList⟩⟩, ⟨.lt, ⟨"2".toList⟩⟩]
-    ∧ vercmp ⟨"1.0.a".toList⟩ ⟨"1.0".toList⟩ = .lt
-    ∧ Cmpr.holds .ge (vercmp ⟨"1.0.a".toList⟩ ⟨"1.0".toList⟩) = false
+/-- the repaired prerelease case: `~> 1.0.a` is `>= 1.0.a, < 2`, and `1.0.a` is accepted by the
+range and by `satisfied_by` alike -/
+theorem gem_tilde_prerelease_example :
+    tildeOfVersion ⟨"1.0.a".toList⟩ = .ok [⟨.ge, ⟨"1.0.a".toList⟩⟩, ⟨.lt, ⟨"2".toList⟩⟩]
+    ∧ Cmpr.holds .ge (vercmp ⟨"1.0.a".toList⟩ ⟨"1.0.a".toList⟩) = true
+    ∧ Cmpr.holds .lt (vercmp ⟨"1.0.a".toList⟩ ⟨"2".toList⟩) = true
     ∧ satisfiedBy [⟨.tilde, ⟨"1.0.a".toList⟩⟩] ⟨"1.0.a".toList⟩ = .ok true := by
   refine ⟨by rfl, by decide +kernel, by decide +kernel, by decide +kernel⟩
 
@@ -329,8 +317,9 @@ theorem expandTildes_ok (l : List GC) (hl : AllWF l) :
     obtain ⟨more, hm, hw, hn, _⟩ := ih (fun x hx => hl x (List.mem_cons_of_mem _ hx))
     unfold expandTildes
     by_cases ht : gc.op = .tilde
-    · obtain ⟨lo, hi, ht', _, _, wlo, whi⟩ := tildeOfVersion_ok gc.version (hl gc (by simp))
-      refine ⟨[⟨.ge, lo⟩, ⟨.lt, hi⟩] ++ more, by simp [ht, getTildeConstraints, ht', hm], ?_, ?_, by simp⟩
+    · have wlo := hl gc (by simp)
+      obtain ⟨_, hi, ht', _, _, _, whi⟩ := tildeOfVersion_ok gc.version wlo
+      refine ⟨[⟨.ge, gc.version⟩, ⟨.lt, hi⟩] ++ more, by simp [ht, getTildeConstraints, ht', hm], ?_, ?_, by simp⟩
       · intro x hx
         simp only [List.cons_append, List.nil_append, List.mem_cons] at hx
         rcases hx with hx | hx | hx
@@ -510,22 +499,60 @@ theorem gem_native_sound_op (gc : GC) (c : Con Raw) (h : gc.con? = some c) (x : 
   obtain ⟨op, v⟩ := gc
   cases op <;> simp [GC.con?, Op.cmpr?] at h <;> subst h <;> simp [Con.holds, Cmpr.holds, opHolds]
 
-/-- **`gem_tilde_sound_release`**: for a release requirement version `v` and a RELEASE probe `x`,
-`~> v` holds iff both produced bounds hold -/
-theorem gem_tilde_sound_release (v : Raw) (hv : WellFormed v) (hr : isPrerelease v = false)
+/-- `bump` only reads the leading numeric segments, which `release` keeps -/
+theorem bump_release (v r : Raw) (hv : WellFormed v) (h : release v = .ok r) : bump r = bump v := by
+  rw [release_eq] at h
+  injection h with h
+  subst h
+  split
+  · have hne := leadingNums_ne_nil v hv
+    have hs : (⟨joinDots ((leadingNums v.segs).map natStr)⟩ : Raw).segs
+        = (leadingNums v.segs).map Seg.num := by simp [segs_join, hne]
+    unfold bump
+    simp only [hs, leadingNums_map_num]
+  · rfl
+
+/-- the upper bound of `~> v` is `bump v` -/
+theorem tilde_upper_eq (v hi : Raw) (hv : WellFormed v)
+    (ht : tildeOfVersion v = .ok [⟨.ge, v⟩, ⟨.lt, hi⟩]) : bump v = .ok hi := by
+  obtain ⟨rel, hi', ht', hrel, hhi, _, _⟩ := tildeOfVersion_ok v hv
+  rw [ht] at ht'
+  injection ht' with ht'
+  simp only [List.cons.injEq, GC.mk.injEq, true_and, and_true] at ht'
+  rw [← bump_release v rel hv hrel, hhi, ht']
+
+/-- **`gem_tilde_sound_release`**: for EVERY well-formed requirement version `v` (prereleases
+included) and a RELEASE probe `x`, `~> v` holds iff both produced bounds hold -/
+theorem gem_tilde_sound_release (v : Raw) (hv : WellFormed v)
     (x : Raw) (hx : isPrerelease x = false) :
     ∃ hi, tildeOfVersion v = .ok [⟨.ge, v⟩, ⟨.lt, hi⟩] ∧
       opHolds .tilde x v = (Con.holds vercmp x (.mk .ge v) && Con.holds vercmp x (.mk .lt hi)) := by
-  obtain ⟨hi, ht, _⟩ := gem_tilde_bounds v hv hr
+  obtain ⟨hi, ht, _⟩ := gem_tilde_bounds v hv
   refine ⟨hi, ht, ?_⟩
-  have hb : bump v = .ok hi := by
-    obtain ⟨lo, hi', ht', hlo, hhi, _, _⟩ := tildeOfVersion_ok v hv
-    rw [ht] at ht'
-    injection ht' with ht'
-    simp only [List.cons.injEq, GC.mk.injEq, true_and, and_true] at ht'
-    rw [← ht'.1] at hhi; rw [ht'.2]; exact hhi
+  have hb := tilde_upper_eq v hi hv ht
   have hrx : release x = .ok x := by rw [release_eq, hx]; rfl
   simp [opHolds, releaseD, bumpD, hb, hrx, Con.holds, Cmpr.holds]
+
+/-- **`gem_tilde_sound_subset`**: for EVERY probe (prereleases included) and every well-formed
+requirement version, what RubyGems' `~>` accepts lies in the produced range (the converse fails
+only for prereleases of versions at or above the upper bound, see the counterexample below) -/
+theorem gem_tilde_sound_subset (v : Raw) (hv : WellFormed v) (x : Raw) :
+    ∃ hi, tildeOfVersion v = .ok [⟨.ge, v⟩, ⟨.lt, hi⟩] ∧
+      (opHolds .tilde x v = true →
+        (Con.holds vercmp x (.mk .ge v) && Con.holds vercmp x (.mk .lt hi)) = true) := by
+  obtain ⟨hi, ht, _⟩ := gem_tilde_bounds v hv
+  refine ⟨hi, ht, ?_⟩
+  have hb := tilde_upper_eq v hi hv ht
+  obtain ⟨rx, hrx⟩ := release_ok x
+  have hle := vercmp_release x rx hrx
+  simp only [opHolds, releaseD, bumpD, hb, hrx, Con.holds, Cmpr.holds, Bool.and_eq_true,
+    beq_iff_eq]
+  rintro ⟨h1, h2⟩
+  refine ⟨h1, ?_⟩
+  cases h3 : vercmp x rx with
+  | lt => exact TransCmp.lt_trans h3 h2
+  | eq => exact TransCmp.lt_of_eq_of_lt h3 h2
+  | gt => exact absurd h3 hle
 
 /-- **defect / semantic gap** (C18): `~> 1.0` does not accept the prerelease `2.a` of the upper
 bound (RubyGems compares `version.release`), but the produced range `>=1.0|<2` contains it -/
@@ -739,9 +766,9 @@ theorem sortConstraints_ne_nil (l : List GC) (h : l ≠ []) : sortConstraints l 
     | cons _ _ => simp at this
   | cons a r => simp [dedupLoop]
 
-/-- every `~>` clause is on a release version, and then the probe is a release too -/
+/-- if there is a `~>` clause (on any version, prereleases included) the probe is a release -/
 abbrev TildeOK (l : List GC) (x : Raw) : Prop :=
-  ∀ gc ∈ l, gc.op = .tilde → isPrerelease gc.version = false ∧ isPrerelease x = false
+  ∀ gc ∈ l, gc.op = .tilde → isPrerelease x = false
 
 theorem expandTildes_satSpec (l e : List GC) (hw : AllWF l) (x : Raw) (ht : TildeOK l x)
     (h : expandTildes l = .ok e) : satSpec e x = satSpec l x := by
@@ -753,8 +780,8 @@ theorem expandTildes_satSpec (l e : List GC) (hw : AllWF l) (x : Raw) (ht : Tild
       (fun y hy => ht y (List.mem_cons_of_mem _ hy)) hm
     unfold expandTildes at h
     by_cases hti : gc.op = .tilde
-    · obtain ⟨hr, hx⟩ := ht gc (by simp) hti
-      obtain ⟨hi, hto, hsem⟩ := gem_tilde_sound_release gc.version (hw gc (by simp)) hr x hx
+    · have hx := ht gc (by simp) hti
+      obtain ⟨hi, hto, hsem⟩ := gem_tilde_sound_release gc.version (hw gc (by simp)) x hx
       simp only [hti, beq_self_eq_true, ↓reduceIte, getTildeConstraints, bne_self_eq_false,
         Bool.false_eq_true, hto, hm] at h
       injection h with h
@@ -813,8 +840,8 @@ theorem filterMap_con_length (l : List GC) (hn : NoTilde l) :
     | some c => simp [hc, ih']
 
 /-- **`gem_native_sound`** (C06 gem part): let `gcs` be the parsed requirement and `gr` its
-simplification (what `from_native` turns into the range).  If every `~>` is on a release version
-(and then the probe `x` is a release), and the produced constraints are in the fragment (besides
+simplification (what `from_native` turns into the range).  If the probe `x` is a release whenever the
+requirement has a `~>` clause (on any version), and the produced constraints are in the fragment (besides
 exclusions: one `=`, or one bound, or a lower and an upper bound), then membership of `x` in the
 interval reading of the produced constraints over `Gem.vercmp` is exactly
 `GemRequirement.satisfied_by(x)`. -/
@@ -878,14 +905,14 @@ theorem gem_native_sound_single (gc : GC) (hn : gc.op ≠ .tilde) (x : Raw) :
           Con.isUpper, Con.isLower, Cmpr.isUpper, Cmpr.isLower, inIntervals, inPairs, Con.holds,
           Cmpr.holds] <;> cases vercmp x v <;> rfl)
 
-/-- one `~>` clause on a release version, probed with a release version: the produced range
+/-- one `~>` clause on any well-formed version, probed with a release version: the produced range
 `[>= v, < hi]` contains `x` iff RubyGems' `~>` accepts `x` -/
-theorem gem_native_sound_tilde (v : Raw) (hv : WellFormed v) (hr : isPrerelease v = false)
+theorem gem_native_sound_tilde (v : Raw) (hv : WellFormed v)
     (x : Raw) (hx : isPrerelease x = false) :
     ∃ hi, simplify [⟨.tilde, v⟩] = .ok [⟨.ge, v⟩, ⟨.lt, hi⟩] ∧
       denote vercmp [.mk .ge v, .mk .lt hi] x = opHolds .tilde x v := by
-  obtain ⟨hi, ht, hsem⟩ := gem_tilde_sound_release v hv hr x hx
-  obtain ⟨hi', ht', hlt, _⟩ := gem_tilde_bounds v hv hr
+  obtain ⟨hi, ht, hsem⟩ := gem_tilde_sound_release v hv x hx
+  obtain ⟨hi', ht', hlt, _⟩ := gem_tilde_bounds v hv
   have : hi' = hi := by
     rw [ht] at ht'; injection ht' with ht'
     simp only [List.cons.injEq, GC.mk.injEq, true_and, and_true] at ht'
